@@ -89,6 +89,7 @@ type Engine struct {
 	params      map[string]int
 	smtDir      string
 	extra       map[string]interface{}
+	lazyBranch  bool
 	fnStats     map[string][3]int
 	panicObls   bool
 	panicSeen   map[string]bool
@@ -304,7 +305,7 @@ func (e *Engine) CallFn(st *State, fn *ssa.Function, args []Value, in ssa.Instru
 			unsupported("too many paths in %s", fn)
 		}
 	}
-	if len(outs) > 1 && !e.cfg.TrackWrite {
+	if len(outs) > 1 {
 		for i := range outs {
 			if outs[i].Panic == nil {
 				outs[i].St.collect(entryNext, outs[i].Ret)
@@ -565,6 +566,10 @@ func (pc *pathCtx) run(it *item) {
 			// loop bound per frame: count visits of blocks that are targets of back edges
 			it.fr.loops[blk.Index]++
 			if it.fr.loops[blk.Index] > e.cfg.Unroll+1 {
+				if e.lazyBranch && e.solver.Check(append(append([]*Term(nil), it.st.pc...), e.exclude...)) == Unsat {
+					e.PathsEnded++
+					return
+				}
 				e.Unwinding = append(e.Unwinding, fmt.Sprintf("%s block %d (bound %d)", it.fr.fn, blk.Index, e.cfg.Unroll))
 				e.PathsEnded++
 				return
@@ -744,7 +749,23 @@ func (pc *pathCtx) step(it *item, in ssa.Instruction) bool {
 		return true
 	case *ssa.If:
 		c := pc.term(it, x.Cond)
-		t, f := e.branch(st, c)
+		var t, f bool
+		if e.lazyBranch && fr.loops[fr.block.Index] <= 1 {
+			// lazy forking: outside loop re-entries a branch that the path's literal knowledge
+			// does not decide is simply taken both ways; feasibility is established where it
+			// matters (obligations, panics, loop re-entry, unwinding records, covers)
+			cs := st.Simp(c)
+			switch {
+			case cs.IsTrue():
+				t = true
+			case cs.IsFalse():
+				f = true
+			default:
+				t, f = true, true
+			}
+		} else {
+			t, f = e.branch(st, c)
+		}
 		switch {
 		case t && f:
 			o := &item{st: st.Fork(), fr: fr.fork()}
